@@ -18,7 +18,8 @@ HERE = os.path.dirname(os.path.abspath(__file__))
 VERIF = os.path.dirname(HERE)
 PY = "/venv/bin/python"
 DIR = None
-T0 = 1_000_000_000  # mtime given to everything that is materialised (2001-09-09T01:46:40Z)
+T0 = 1_000_000_000  # mtime given to everything that is materialised (2001-09-09T01:46:40Z) ...
+T0_FRAC_NS = 123_456_789  # ... plus an odd nanosecond part, so that a "restored" mtime that went through a float is noticed
 NOW0 = 1_593_600_000.25  # default virtual "now" 2020-07-01T10:40:00.25Z
 
 
@@ -66,20 +67,24 @@ def materialise(root, tree, mtimes=None, clean=True):
             with ropen(fp, "wb") as f:
                 f.write(tree[p])
     mt = mtimes or {}
+
+    def ns(t):
+        return int(t) * 1_000_000_000 + int(round((t - int(t)) * 1e9)) + (T0_FRAC_NS if float(t).is_integer() else 0)
     for p in sorted(tree, reverse=True):
-        t = mt.get(p, T0)
-        os.utime(os.path.join(root, p), (t, t))
-    t = mt.get("", T0)
-    os.utime(root, (t, t))
+        t = ns(mt.get(p, T0))
+        os.utime(os.path.join(root, p), ns=(t, t))
+    t = ns(mt.get("", T0))
+    os.utime(root, ns=(t, t))
 
 
 def reset_mtimes(root, t=T0):
     """give every entry below root (and root) the fixed mtime again: creating an ascmhl folder updates the
     real mtime of its parent directory, which a later command would record as lastmodificationdate"""
+    tn = int(t) * 1_000_000_000 + T0_FRAC_NS
     for dp, dn, fn in os.walk(root, topdown=False):
         for n in fn + dn:
-            os.utime(os.path.join(dp, n), (t, t))
-    os.utime(root, (t, t))
+            os.utime(os.path.join(dp, n), ns=(tn, tn))
+    os.utime(root, ns=(tn, tn))
 
 
 def readback(root):
